@@ -725,6 +725,33 @@ def refusal_live(ctx: Ctx, rule: str, why: str) -> int:
                 rep.bad(rule, f.qname, desc, f.loc(c), [f"{f.loc(c)}: `{unparse(c, 60)}` is reached only through " + ", ".join(f"[{b.label}] {unparse(b.ast, 40)}" for b in dead[:3])
                         + f", which cannot hold: {sorted(world)} are never true (module-level objects bound once)", why], stmt_key(c),
                         what=f"the refusal of callables of non-accepted modules is dead code in {f.name}")
+            # the kinds of callable for which the resolution is skipped (`not is_lambda(f) and ...`): they are refused by a test of their own
+            skip_atoms = set()
+            for b in cfg.nodes:
+                if b.kind == "branch" and b.ast is not None and isinstance(b.ast, ast.expr):
+                    for y in ast.walk(b.ast):
+                        if isinstance(y, ast.Call) and isinstance(y.func, ast.Name) and y.func.id.startswith("is_") and len(y.args) == 1 and isinstance(y.args[0], ast.Name) \
+                                and y.args[0].id in f.params:
+                            skip_atoms.add(unparse(y))
+            for atom in sorted(skip_atoms):
+                w2 = dict(world)
+                w2[atom] = True
+                av2 = excluding_branches(prog, f, cfg, w2)
+                if cfg.find_path([cfg.entry], tg, avoid=av2) is not None:
+                    continue   # the resolution also runs for this kind
+                n += 1
+                d2 = f"{f.name}: a callable for which `{atom}` holds (the resolution of the call tree is skipped for it) is refused when its module is not accepted"
+                auth_T = [b for b in cfg.nodes if b.kind == "branch" and b.ast is not None and isinstance(b.ast, ast.expr) and "is_authorized_path" in unparse(b.ast) and (
+                    (b.label == "T" and unparse(b.ast).startswith("not ")) or (b.label == "F" and not unparse(b.ast).startswith("not ")))]
+                kind_T = [b for b in cfg.nodes if b.kind == "branch" and b.ast is not None and isinstance(b.ast, ast.expr) and b not in av2 and atom in unparse(b.ast)]
+                raises = [r for r in f.own_nodes() if isinstance(r, ast.Raise)]
+                good = [r for r in raises if auth_T and any(cfg.dominated_by(t_, auth_T) is None for t_ in cfg.nodes_of(r)) and cfg.find_path([cfg.entry], cfg.nodes_of(r), avoid=av2) is not None]
+                if good:
+                    rep.ok(rule, f.qname, d2, f.loc(good[0]))
+                else:
+                    rep.bad(rule, f.qname, d2, f.loc(c), [f"{f.loc(c)}: the resolution is not reached when `{atom}`, and no raise under a failed `is_authorized_path(..)` test is reached either",
+                            "dds.keep('/p', lambda: 11) executed by code of a module that is not accepted is evaluated and stored, where a named function of that module is refused"],
+                            f"kind-not-refused:{atom}", what=f"callables with `{atom}` of non-accepted modules are evaluated untracked")
     return n
 
 
